@@ -486,6 +486,16 @@ theorem gain_dispatch_matches_model (gain : Gain K) (x : K) (i j : Int) :
     simp only [gainFromSource, Gain.ndim, Gain.at, Gen.adcOrderSource, Gen.adcEinsum, List.lookup, einsumAt]
     simpa using congrArg some h
 
+/-- the regenerated gain dispatch of `adc` (`if gain.ndim in [0, 2] … elif gain.ndim in [1, 3] … else: raise ValueError`) knows exactly the
+ranks 0..3 — the four documented gain forms; a gain array of any higher rank is refused -/
+theorem adc_gain_rank_dispatch (n : Nat) : (Gen.adcOrderSource.lookup n).isSome = true ↔ n ≤ 3 := by
+  rcases n with _ | _ | _ | _ | n
+  · decide
+  · decide
+  · decide
+  · decide
+  · simp [Gen.adcOrderSource, List.lookup]
+
 /-- the four gain forms: a scalar and a per-pixel gain multiply the (clipped) count; a coefficient vector and a per-pixel
 coefficient cube are the polynomial `Σ_d g[d]·x^(n-d)` -/
 theorem adc_gain_forms (g : K) (gl : List K) (gp : Int → Int → K) (n : Nat) (gc : Nat → Int → Int → K) (x : K) (i j : Int) :
